@@ -443,6 +443,50 @@ def m_sum(E, a, kw):
     return VInt(sigma_of(E, lambda i: E.as_int(sq.at(i)), sq.n))
 
 
+@model('any')
+def m_any(E, a, kw):
+    items = E.iter_items(a[0])
+    for x in items:
+        if E.branch(E.truth(x)):
+            return TRUE
+    return FALSE
+
+
+@model('all')
+def m_all(E, a, kw):
+    items = E.iter_items(a[0])
+    for x in items:
+        if not E.branch(E.truth(x)):
+            return FALSE
+    return TRUE
+
+
+@model('chr')
+def m_chr(E, a, kw):
+    v = E.as_int(a[0])
+    if E.branch(z3.Or(v < 0, v > 0x10FFFF)):
+        _raise(E, ValueError, 'chr() arg not in range(0x110000)')
+    return seq_items('str', [z3.simplify(v)])
+
+
+@model('dict.fromkeys')
+def m_dict_fromkeys(E, a, kw):
+    keys = E.iter_items(a[0])
+    val = a[1] if len(a) > 1 else NONE
+    return E.new_dict({E.dict_key(k): val for k in keys})
+
+
+@model('bytes.fromhex')
+def m_bytes_fromhex(E, a, kw):
+    cs = conc_str(a[0]) if isinstance(a[0], VSeq) else None
+    if cs is None:
+        raise Unsupported('bytes.fromhex of symbolic text')
+    try:
+        return lift(bytes.fromhex(cs))
+    except ValueError:
+        _raise(E, ValueError, 'non-hexadecimal number found in fromhex() arg')
+
+
 @model('divmod')
 def m_divmod(E, a, kw):
     x, y = E.as_int(a[0]), E.as_int(a[1])
